@@ -5,7 +5,8 @@
 //verif:hook p2p/net/swarm Swarm.TransportForDialing
 //verif:hook p2p/net/swarm blackHoleDetector.FilterAddrs
 //verif:hook p2p/net/swarm dialSync.Dial
-//verif:obligation C10.c the gater's outbound call sites in the swarm: Swarm.dialPeer to a peer the gater refuses fails with ErrGaterDisallowedConnection before any dial attempt is started (unless a usable connection already exists); Swarm.filterKnownUndialables, over really parsed multiaddrs, never lets an address the gater refuses (InterceptAddrDial false) through to the dialer and reports it as gated, while an allowed, dialable address is never lost to the gater; Swarm.addConn consults InterceptUpgraded before the connection becomes visible (C06.c)
+//verif:hook p2p/net/swarm Swarm.resolveAddrs
+//verif:obligation C10.c the gater's outbound call sites in the swarm: Swarm.dialPeer to a peer the gater refuses fails with ErrGaterDisallowedConnection before any dial attempt is started (unless a usable connection already exists); Swarm.filterKnownUndialables, over really parsed multiaddrs, never lets an address the gater refuses (InterceptAddrDial false) through to the dialer and reports it as gated, while an allowed, dialable address is never lost to the gater; the same holds for the candidate list of the real addrsForDial, with and without a demand for a direct connection (force-direct dials are gated like any other); Swarm.addConn consults InterceptUpgraded before the connection becomes visible (C06.c)
 //verif:bound one peer, 3 candidate addresses with symbolic gater answers
 //verif:stub gater stub with symbolic answers; TransportForDialing / black-hole filter / listen addresses / dialSync.Dial hooked
 //verif:outside the inbound call sites (InterceptAccept / InterceptSecured are exercised in the upgrader and the gated listener, C04.a/b), QUIC / WebTransport / WebRTC listeners
@@ -14,9 +15,12 @@ package swarm
 import (
 	"context"
 	"errors"
+	"time"
 
 	"github.com/libp2p/go-libp2p/core/connmgr"
+	"github.com/libp2p/go-libp2p/core/network"
 	"github.com/libp2p/go-libp2p/core/peer"
+	"github.com/libp2p/go-libp2p/core/peerstore"
 	"github.com/libp2p/go-libp2p/core/transport"
 	ma "github.com/multiformats/go-multiaddr"
 )
@@ -113,4 +117,55 @@ func VerifC10cAddrGate() {
 		}
 	}
 	vAssert(len(good) <= len(addrs), "nothing is invented")
+}
+
+type vC10cPs struct {
+	peerstore.Peerstore
+	known []ma.Multiaddr
+	added []ma.Multiaddr
+}
+
+func (p *vC10cPs) Addrs(peer.ID) []ma.Multiaddr { return p.known }
+func (p *vC10cPs) AddAddrs(_ peer.ID, a []ma.Multiaddr, _ time.Duration) {
+	p.added = append(p.added, a...)
+}
+
+func VerifC10cForceDirectGate() {
+	texts := []string{"/ip4/1.2.3.4/tcp/4001", "/ip4/5.6.7.8/udp/4001/quic-v1"}
+	g := &vC10cGater{addrOK: map[string]bool{}}
+	ps := &vC10cPs{}
+	for _, t := range texts {
+		a := vC10cParse(t)
+		ps.known = append(ps.known, a)
+		g.addrOK[a.String()] = vBool()
+	}
+	VerifHook_Swarm_InterfaceListenAddresses = func(s *Swarm) ([]ma.Multiaddr, error) { return nil, nil }
+	VerifHook_Swarm_TransportForDialing = func(s *Swarm, a ma.Multiaddr) transport.Transport { return vC10cTpt{} }
+	VerifHook_blackHoleDetector_FilterAddrs = func(d *blackHoleDetector, a []ma.Multiaddr) ([]ma.Multiaddr, []ma.Multiaddr) { return a, nil }
+	VerifHook_Swarm_resolveAddrs = func(s *Swarm, ctx context.Context, pi peer.AddrInfo) []ma.Multiaddr { return pi.Addrs }
+	defer func() {
+		VerifHook_Swarm_InterfaceListenAddresses, VerifHook_Swarm_TransportForDialing, VerifHook_blackHoleDetector_FilterAddrs = nil, nil, nil
+		VerifHook_Swarm_resolveAddrs = nil
+	}()
+	s := &Swarm{local: "self", peers: ps, gater: g}
+	ctx := context.Background()
+	if vBool() {
+		ctx = network.WithForceDirectDial(ctx, "verif")
+		vCover("force-direct")
+	}
+	good, _, _ := s.addrsForDial(ctx, "peerA")
+	for _, a := range append(append([]ma.Multiaddr{}, good...), ps.added...) {
+		vAssert(g.addrOK[a.String()], "a dial - also one that demands a direct connection - is never given an address the gater refuses")
+	}
+	for _, a := range ps.known {
+		if g.addrOK[a.String()] {
+			in := false
+			for _, x := range good {
+				if x.Equal(a) {
+					in = true
+				}
+			}
+			vAssert(in, "an allowed address stays a candidate")
+		}
+	}
 }
